@@ -45,13 +45,14 @@ static void dump_stats() {
 static void note_ratio(const std::string& impl, unsigned k, double ratio) {
   static bool on = getenv("C06_STATS") != nullptr;
   if (!on) return;
+  std::map<std::string, double>& wm = worst_map();  // constructed before the atexit registration: destroyed after it ran
   static bool reg = (atexit(dump_stats), true);
   (void)reg;
-  double& a = worst_map()[impl];
+  double& a = wm[impl];
   a = std::max(a, ratio);
   char b[96];
   snprintf(b, sizeof b, "%s k=%02u", impl.c_str(), k);
-  double& q = worst_map()[b];
+  double& q = wm[b];
   q = std::max(q, ratio);
 }
 static const char* ratio_bucket(double r) {
